@@ -78,7 +78,20 @@ def floordiv(interp, a, b, node):
         return simplify_scalar((as_poly(a) - r) / 2)
     if bn == 1:
         return a
+    if _sizes_only(a) and _sizes_only(b):
+        if (str(as_poly(a)), str(as_poly(b))) in getattr(interp.ctx, "divisible", ()):
+            return simplify_scalar(as_poly(a) / as_poly(b))  # under the assumed outcome of `a % b == 0`
+        return alg.fn("floordiv", as_poly(a), as_poly(b))
     raise Unsupported(f"floor division {a} // {b}")
+
+
+def _sizes_only(x):
+    """an integer expression in the grid-size symbols only (N, Nold, Nnew, n, M) and integer constants"""
+    if is_num(x):
+        return True
+    p = as_poly(x)
+    ats = p.all_atoms()
+    return bool(ats) and all(a[0] == "s" and a in alg.ASSUME_MIN or (a[0] == "fn" and a[1] in ("mod", "floordiv")) for a in ats)
 
 
 def mod(interp, a, b, node):
@@ -90,6 +103,8 @@ def mod(interp, a, b, node):
         if r is None:
             raise Unsupported(f"{a} % 2 with unknown parity")
         return r
+    if _sizes_only(a) and _sizes_only(b):
+        return alg.fn("mod", as_poly(a), as_poly(b))
     raise Unsupported(f"modulo {a} % {b}")
 
 
@@ -574,6 +589,31 @@ def getitem(interp, o, i, node):
 
 def getitem_tens(t, idx, handler):
     idxn = T.normalize_index(idx, t.ndim)
+    # x[::step] along a symbolic (grid) axis: every step-th sample - an uninterpreted resampling of the field
+    strided = []
+    ax = 0
+    idx2 = []
+    for it_ in idxn:
+        if it_ is None:
+            idx2.append(it_)
+            continue
+        if isinstance(it_, slice) and is_sym(t.shape[ax]) and it_.start is None and it_.stop is None and it_.step is not None and not (is_num(it_.step) and it_.step == 1):
+            strided.append((ax, it_.step))
+            idx2.append(slice(None))
+        else:
+            idx2.append(it_)
+        ax += 1
+    if strided:
+        base = getitem_tens(t, tuple(idx2), handler)
+        if any(x is None for x in idx2) or base.ndim != t.ndim:
+            raise Unsupported("strided slice on a symbolic axis combined with integer / new-axis indexing")
+        shape = list(base.shape)
+        tag = []
+        for ax, st in strided:
+            shape[ax] = simplify_scalar(as_poly(shape[ax]) / as_poly(st)) if not is_num(st) or st > 0 else shape[ax]
+            tag.append((t.ndim - ax, as_poly(st)))
+        axes_s = ",".join(str(a_) for a_, _ in tag)
+        return Tens(tuple(shape), [Poly.atom(("Strided", e, axes_s) + tuple(st_ for _, st_ in tag)) for e in base.data], base.meta)
     picks = []
     ax = 0
     nsym = len(t.sym_axes())
@@ -1319,7 +1359,12 @@ def _flip(it, a, k, node):
 @reg("jnp.roll")
 def _roll(it, a, k, node):
     t = _arr(a[0])
-    shift = _I()._static_int(a[1] if len(a) > 1 else k["shift"])
+    sh = a[1] if len(a) > 1 else k["shift"]
+    shp = sh.data[0] if isinstance(sh, Tens) and sh.shape == () else sh
+    if isinstance(shp, Poly) and shp.as_number() is None and any(b[0] == "idx" for b in shp.all_atoms()):
+        # shift by a loop / scan index (a tracer in the real program): kept as a structure for the window rules
+        return _I().Term("roll", a[0], shp, k.get("axis", a[2] if len(a) > 2 else None))
+    shift = _I()._static_int(sh)
     axis = _axis(k, a[2] if len(a) > 2 else None)
     if axis is None or is_sym(t.shape[axis % t.ndim]):
         it.event("grid-axis-reordering", node, "roll")
@@ -1673,7 +1718,16 @@ def _scan(it, a, k, node):
     return SO.scan(it, a, k, node)
 
 
-@reg("lax.dynamic_slice_in_dim")
+@reg("lax.dynamic_slice", "jax.lax.dynamic_slice")
+def _dslice(it, a, k, node):
+    I = _I()
+    names = ["operand", "start_indices", "slice_sizes"]
+    kw = dict(zip(names, a))
+    kw.update(k)
+    return I.Term("dynamic_slice", kw.get("operand"), tuple(kw.get("start_indices")), tuple(kw.get("slice_sizes")))
+
+
+@reg("lax.dynamic_slice_in_dim", "jax.lax.dynamic_slice_in_dim")
 def _dsl(it, a, k, node):
     I = _I()
     names = ["operand", "start_index", "slice_size", "axis"]
